@@ -118,6 +118,83 @@ theorem argmin_some {α : Type} (score : α → Rat) (l : List α) (hne : l ≠ 
       · exact ⟨a, by simp [hs]⟩
       · exact ⟨y, by simp [hs]⟩
 
+/-! ### the recorded history, for any graph and any sequence of transition calls -/
+
+/-- consecutive entries of a list of states are joined by a declared transition -/
+def Linked (g : Graph) : List Nat → Prop
+  | a :: b :: rest => (∃ t, (t, b) ∈ g.succ a) ∧ Linked g (b :: rest)
+  | _ => True
+
+theorem mem_of_lookup (t : String) (m : Nat) :
+    ∀ (l : List (String × Nat)), l.lookup t = some m → (t, m) ∈ l := by
+  intro l
+  induction l with
+  | nil => intro h; simp at h
+  | cons a as ih =>
+    obtain ⟨a1, a2⟩ := a
+    intro h
+    simp only [List.lookup_cons] at h
+    by_cases e : t = a1
+    · subst e; simp at h; subst h; simp
+    · have hb : (t == a1) = false := by simpa using e
+      rw [hb] at h
+      exact List.mem_cons_of_mem _ (ih h)
+
+/-- the history starts with the state the calls started from -/
+theorem history_head (g : Graph) (n : Nat) (p : List String) : ∃ rest, historyOf g n p = n :: rest := by
+  cases p with
+  | nil => exact ⟨[], rfl⟩
+  | cons t ts =>
+    unfold historyOf
+    cases (g.succ n).lookup t with
+    | none => exact ⟨[], rfl⟩
+    | some m => exact ⟨_, rfl⟩
+
+/-- **The workflow only moves along declared transitions**: in the history recorded for ANY sequence of transition
+names called from ANY state of ANY graph, every two consecutive states are joined by a transition the earlier one declares
+(a name the current state does not declare ends the walk; it never teleports). -/
+theorem history_linked (g : Graph) (n : Nat) (p : List String) : Linked g (historyOf g n p) := by
+  induction p generalizing n with
+  | nil => simp [historyOf, Linked]
+  | cons t ts ih =>
+    unfold historyOf
+    cases h : (g.succ n).lookup t with
+    | none => simp [Linked]
+    | some m =>
+      obtain ⟨rest, hr⟩ := history_head g m ts
+      have := ih m
+      simp only [hr] at this ⊢
+      exact ⟨⟨t, mem_of_lookup t m _ h⟩, this⟩
+
+/-- **…and records the states visited in order**: when every call succeeds (`follow` reaches `m`), the history has one entry
+per call plus the start, begins at the start and ends in the state reached. -/
+theorem history_of_follow (g : Graph) (n m : Nat) (p : List String) (h : follow g n p = some m) :
+    (historyOf g n p).length = p.length + 1 ∧ (historyOf g n p).head? = some n ∧ (historyOf g n p).getLast? = some m := by
+  induction p generalizing n with
+  | nil => simp only [follow, Option.some.injEq] at h; subst h; simp [historyOf]
+  | cons t ts ih =>
+    simp only [follow] at h
+    unfold historyOf
+    cases hx : (g.succ n).lookup t with
+    | none => simp [hx] at h
+    | some k =>
+      simp only [hx] at h
+      obtain ⟨hl, _, hlast⟩ := ih k h
+      obtain ⟨rest, hr⟩ := history_head g k ts
+      refine ⟨by simp [hl], by simp, ?_⟩
+      simp only [hr] at hlast ⊢
+      simpa [List.getLast?_cons_cons] using hlast
+
+/-- a returned search path, followed, leaves a history that starts at the start, ends in the target, has one entry per
+transition plus one, and moves along declared transitions only -/
+theorem search_history (g : Graph) (hnd : ∀ n, ((g.succ n).map (·.1)).Nodup) (start target fuel : Nat)
+    (p : List String) (h : search g start target fuel = some p) :
+    (historyOf g start p).length = p.length + 1 ∧ (historyOf g start p).head? = some start ∧
+      (historyOf g start p).getLast? = some target ∧ Linked g (historyOf g start p) :=
+  have hf := search_sound g hnd start target fuel p h
+  ⟨(history_of_follow g start target p hf).1, (history_of_follow g start target p hf).2.1,
+   (history_of_follow g start target p hf).2.2, history_linked g start p⟩
+
 /-- data sets too small to split are refused -/
 theorem min_samples (n : Nat) : fitAccepts n = true ↔ 3 ≤ n := by
   unfold fitAccepts MIN_SAMPLES; exact decide_eq_true_iff
